@@ -29,6 +29,8 @@ def is_int(s):
 
 def ty_of(c):
     t = c.get("ty")
+    if isinstance(t, dict):                      # {"wrap": t, "any": bool}: anyOf | oneOf [<schema of type t>, {type: null}]
+        return t.get("wrap")
     if isinstance(t, list):
         return next((x for x in t if x != "null"), None)
     return t
@@ -212,6 +214,8 @@ def rand_cons_scalar(r, wild=0.15):
     if kind in ("int", "num"):
         base = "integer" if kind == "int" else "number"
         ty = [base, "null"] if r.random() < 0.12 else base
+        if r.random() < 0.08:
+            ty = {"wrap": base, "any": r.random() < 0.7}      # pydantic-style optional: the keywords sit inside the variant (F16-9)
         fmt = r.choice(INT_FORMATS[:3] + [None] * 3 if kind == "int" else NUM_FORMATS + [None])
         if r.random() < wild:
             fmt = r.choice(INT_FORMATS if kind == "int" else NUM_FORMATS)
@@ -226,6 +230,8 @@ def rand_cons_scalar(r, wild=0.15):
                 b[r.choice(["maximum", "exclusiveMaximum"])] = str(lo + r.randint(0, 20)) if kind == "int" or r.random() < 0.5 else str(lo + r.randint(0, 20)) + ".25"
         return cons(ty, format=fmt, **b)
     ty = ["string", "null"] if r.random() < 0.12 else "string"
+    if r.random() < 0.08:
+        ty = {"wrap": "string", "any": r.random() < 0.7}
     fmt = r.choice([None] * 5 + ["email", "uri", "password"] + (["date", "uuid", "date-time"] if r.random() < wild * 2 else []))
     mn = r.choice([None, None, 0, 1, 2])
     mx = r.choice([None, None, 3, 5])
